@@ -9,7 +9,7 @@
 use ark_ff::fields::models::{fp6_2over3, fp6_3over2};
 use ark_ff::{
     BigInteger, CubicExtConfig, CubicExtField, CyclotomicMultSubgroup, Field, Fp12, Fp12Config, Fp2, Fp2Config, Fp3,
-    Fp3Config, Fp4, Fp4Config, MontFp, One, PrimeField, QuadExtConfig, QuadExtField, Zero,
+    Fp3Config, Fp4, Fp4Config, MontFp, One, PrimeField, QuadExtConfig, QuadExtField, SqrtPrecomputation, ToConstraintField, Zero,
 };
 use arkharness::util::*;
 use arkharness::zoo::{FDM61, FDT13, FDT3, FDT5, FDT7};
@@ -104,6 +104,34 @@ impl Fp4Config for Q4_5 {
     type Fp2Config = Q2_5;
     const NONRESIDUE: Fp2<Q2_5> = Fp2::new(MontFp!("0"), MontFp!("1"));
     const FROBENIUS_COEFF_FP4_C1: &'static [FDT5] = &[MontFp!("1"), MontFp!("2"), MontFp!("4"), MontFp!("3")];
+}
+
+// configurations that implement `QuadExtConfig` / `CubicExtConfig` DIRECTLY (no Fp2/Fp3 wrapper), so that the
+// trait-default bodies of `mul_base_field_by_nonresidue_in_place` (and of the hooks built on it) are what runs
+pub struct RawQ7; // F_7[X]/(X^2 - 3)
+impl QuadExtConfig for RawQ7 {
+    type BasePrimeField = FDT7;
+    type BaseField = FDT7;
+    type FrobCoeff = FDT7;
+    const DEGREE_OVER_BASE_PRIME_FIELD: usize = 2;
+    const NONRESIDUE: FDT7 = MontFp!("3");
+    const FROBENIUS_COEFF_C1: &'static [FDT7] = &[MontFp!("1"), MontFp!("6")];
+    fn mul_base_field_by_frob_coeff(fe: &mut FDT7, power: usize) { *fe *= &Self::FROBENIUS_COEFF_C1[power % 2]; }
+}
+pub struct RawC7; // F_7[X]/(X^3 - 3)
+impl CubicExtConfig for RawC7 {
+    type BasePrimeField = FDT7;
+    type BaseField = FDT7;
+    type FrobCoeff = FDT7;
+    const SQRT_PRECOMP: Option<SqrtPrecomputation<CubicExtField<Self>>> = None;
+    const DEGREE_OVER_BASE_PRIME_FIELD: usize = 3;
+    const NONRESIDUE: FDT7 = MontFp!("3");
+    const FROBENIUS_COEFF_C1: &'static [FDT7] = &[MontFp!("1"), MontFp!("2"), MontFp!("4")];
+    const FROBENIUS_COEFF_C2: &'static [FDT7] = &[MontFp!("1"), MontFp!("4"), MontFp!("2")];
+    fn mul_base_field_by_frob_coeff(c1: &mut FDT7, c2: &mut FDT7, power: usize) {
+        *c1 *= &Self::FROBENIUS_COEFF_C1[power % 3];
+        *c2 *= &Self::FROBENIUS_COEFF_C2[power % 3];
+    }
 }
 
 pub struct S6a_7;
@@ -270,11 +298,50 @@ trait Tw: Field + CyclotomicMultSubgroup {
     fn conj(&self) -> Option<Self>;
     /// the overridable non-residue hooks of the config, called directly: (op name, result)
     fn hooks(y: &Self::Base, x: &Self::Base) -> Vec<(&'static str, bool, Self::Base)>;
+    /// the template is `CubicExtField` (whose `From<bool>` does not terminate)
+    const TOP_CUBIC: bool;
+    /// `self ⊕ other` through receiver shape `v` (0..9) of operator `op` (0 add, 1 sub, 2 mul, 3 div):
+    /// the impls of `fields/arithmetic.rs` (`impl_additive_ops_from_ref!`, `impl_multiplicative_ops_from_ref!`)
+    fn opvar(&self, other: &Self, op: usize, v: usize) -> Self;
+    /// `ToConstraintField::to_field_elements` of the extension element
+    fn tfe(&self) -> String;
+}
+/// the nine receiver shapes: `T⊕T`, `T⊕&T`, `T⊕&mut T`, `&T⊕T`, `&T⊕&T`, `&T⊕&mut T`, `⊕= T`, `⊕= &T`, `⊕= &mut T`
+macro_rules! variant9 {
+    ($x:expr, $y:expr, $v:expr, $op:tt, $opa:tt) => {{
+        let x = $x;
+        let mut y = $y;
+        match $v {
+            0 => x $op y,
+            1 => x $op &y,
+            2 => x $op &mut y,
+            3 => &x $op y,
+            4 => &x $op &y,
+            5 => &x $op &mut y,
+            6 => { let mut z = x; z $opa y; z }
+            7 => { let mut z = x; z $opa &y; z }
+            _ => { let mut z = x; z $opa &mut y; z }
+        }
+    }};
+}
+macro_rules! opvar_body {
+    ($s:expr, $o:expr, $op:expr, $v:expr) => {
+        match $op {
+            0 => variant9!(*$s, *$o, $v, +, +=),
+            1 => variant9!(*$s, *$o, $v, -, -=),
+            2 => variant9!(*$s, *$o, $v, *, *=),
+            _ => variant9!(*$s, *$o, $v, /, /=),
+        }
+    };
 }
 impl<P: QuadExtConfig> Tw for QuadExtField<P>
 where
     QuadExtField<P>: CyclotomicMultSubgroup,
+    P::BaseField: ToConstraintField<P::BasePrimeField>,
 {
+    const TOP_CUBIC: bool = false;
+    fn opvar(&self, other: &Self, op: usize, v: usize) -> Self { opvar_body!(self, other, op, v) }
+    fn tfe(&self) -> String { match self.to_field_elements() { Some(v) => list(&v), None => "none".into() } }
     type Base = P::BaseField;
     fn norm_s(&self) -> String { let s = *self; guarded(move || es(&s.norm())) }
     fn mulbase(&self, e: &Self::Base) -> Self { let mut r = *self; r.mul_assign_by_basefield(e); r }
@@ -290,7 +357,11 @@ where
 impl<P: CubicExtConfig> Tw for CubicExtField<P>
 where
     CubicExtField<P>: CyclotomicMultSubgroup,
+    P::BaseField: ToConstraintField<P::BasePrimeField>,
 {
+    const TOP_CUBIC: bool = true;
+    fn opvar(&self, other: &Self, op: usize, v: usize) -> Self { opvar_body!(self, other, op, v) }
+    fn tfe(&self) -> String { match self.to_field_elements() { Some(v) => list(&v), None => "none".into() } }
     type Base = P::BaseField;
     fn norm_s(&self) -> String { let s = *self; guarded(move || es(&s.norm())) }
     fn mulbase(&self, e: &Self::Base) -> Self { let mut r = *self; r.mul_assign_by_base_field(e); r }
@@ -325,6 +396,210 @@ fn exps(rng: &mut Rng, thorough: bool) -> Vec<Vec<u64>> {
         v.push(vec![rng.next(), rng.next() >> rng.below(64)]);
     }
     v
+}
+
+/// re-executes this binary with `arg` (one call that may not terminate) under a time limit; result: the child's
+/// output line, `hang` (killed after `secs`), `stack-overflow` (SIGSEGV / SIGABRT) or `panic`
+fn run_child(arg: &str, secs: u64) -> String {
+    use std::io::Read;
+    use std::process::{Command, Stdio};
+    let exe = std::env::current_exe().unwrap();
+    let mut ch = Command::new(exe).arg(arg).stdout(Stdio::piped()).stderr(Stdio::null()).spawn().unwrap();
+    let t0 = std::time::Instant::now();
+    loop {
+        match ch.try_wait().unwrap() {
+            Some(st) => {
+                if st.success() {
+                    let mut o = String::new();
+                    ch.stdout.take().unwrap().read_to_string(&mut o).unwrap();
+                    return o.trim().to_string();
+                }
+                #[cfg(unix)]
+                { use std::os::unix::process::ExitStatusExt; if let Some(sig) = st.signal() { return if sig == 11 || sig == 6 { "stack-overflow".into() } else { format!("signal-{}", sig) }; } }
+                return if st.code() == Some(101) { "panic".into() } else { format!("exit-{:?}", st.code()) };
+            }
+            None => {
+                if t0.elapsed().as_secs() >= secs { let _ = ch.kill(); let _ = ch.wait(); return "hang".into(); }
+                std::thread::sleep(std::time::Duration::from_millis(10));
+            }
+        }
+    }
+}
+/// child mode `child-bool:<id>:<0|1>`: `F::from(bool)` of a cubic tower on a thread with a small stack
+fn child_from_bool<F: Field>(v: bool) {
+    let t = std::thread::Builder::new().stack_size(256 * 1024).spawn(move || es(&F::from(v))).unwrap();
+    match t.join() { Ok(s) => println!("{}", s), Err(_) => std::process::exit(101) }
+}
+fn child_main(arg: &str) {
+    use ark_test_curves::{bls12_381, mnt6_753};
+    let parts: Vec<&str> = arg.split(':').collect();
+    let v = parts.get(2) == Some(&"1");
+    match parts.get(1).copied().unwrap_or("") {
+        "t3_7a" => child_from_bool::<Fp3<C3_7a>>(v),
+        "t3_7b" => child_from_bool::<Fp3<C3_7b>>(v),
+        "t3_13" => child_from_bool::<Fp3<C3_13>>(v),
+        "t6b_7" => child_from_bool::<fp6_3over2::Fp6<S6b_7>>(v),
+        "t6b_13" => child_from_bool::<fp6_3over2::Fp6<S6b_13>>(v),
+        "r3_7cube" => child_from_bool::<Fp3<R3_7cube>>(v),
+        "r3_7short" => child_from_bool::<Fp3<R3_7short>>(v),
+        "bls_fq6" => child_from_bool::<bls12_381::Fq6>(v),
+        "mnt6_fq3" => child_from_bool::<mnt6_753::Fq3>(v),
+        "raw3_7" => child_from_bool::<CubicExtField<RawC7>>(v),
+        _ => std::process::exit(2),
+    }
+}
+
+fn hi128(v: i128) -> String { if v < 0 { format!("-{:x}", v.unsigned_abs()) } else { format!("{:x}", v) } }
+
+/// `From<{u8,…,u128,i8,…,i128,bool}>` of any field (bool of the cubic template: in a child process)
+fn from_ints<F: Field>(id: &str, top_cubic: bool, thorough: bool, rng: &mut Rng, out: &mut Out) {
+    let p0 = F::BasePrimeField::MODULUS.as_ref()[0] as i128;
+    let small_p = F::BasePrimeField::MODULUS.num_bits() <= 62;
+    macro_rules! from_w {
+        ($w:ty, $name:expr, $signed:expr) => {{
+            let (lo, hi) = (<$w>::MIN as i128, <$w>::MAX as i128);
+            let mut xs: Vec<i128> = if $signed { vec![-1, 0, 1, lo, hi, lo + 1] } else { vec![0, 1, hi, hi - 1] };
+            if small_p { for c in [p0, p0 - 1, p0 + 1, 2 * p0 + 1, -p0, -p0 + 1, -p0 - 1] { if c >= lo && c <= hi { xs.push(c); } } }
+            for _ in 0..(if thorough { 6 } else { 1 }) { xs.push((rng.next() as $w) as i128); }
+            xs.sort(); xs.dedup();
+            for x in xs {
+                let v = x as $w;
+                out.line(&format!("C02 fromw {} {} {}", id, $name, hi128(x)), &guarded(|| es(&F::from(v))));
+            }
+        }};
+    }
+    from_w!(u8, "u8", false); from_w!(u16, "u16", false); from_w!(u32, "u32", false); from_w!(u64, "u64", false);
+    from_w!(i8, "i8", true); from_w!(i16, "i16", true); from_w!(i32, "i32", true); from_w!(i64, "i64", true); from_w!(i128, "i128", true);
+    {
+        let mut xs: Vec<u128> = vec![0, 1, u128::MAX, u128::MAX - 1, 1 << 127, (1 << 127) - 1, ((rng.next() as u128) << 64) | rng.next() as u128];
+        if small_p { xs.push(p0 as u128); xs.push(p0 as u128 * 3 + 2); }
+        for x in xs { out.line(&format!("C02 fromw {} u128 {:x}", id, x), &guarded(|| es(&F::from(x)))); }
+    }
+    for v in [false, true] {
+        let r = if top_cubic {
+            // known: unconditional recursion; quick tier probes it for three towers only
+            if thorough || id == "t3_7a" || (v && (id == "mnt6_fq3" || id == "t6b_7")) { run_child(&format!("child-bool:{}:{}", id, v as u8), 1) } else { continue }
+        } else { guarded(|| es(&F::from(v))) };
+        out.line(&format!("C02 fromw {} bool {}", id, v as u8), &r);
+    }
+}
+
+/// `ToConstraintField` impls of `to_field_vec.rs` at the field `F` and its base prime field
+fn tfe_ops<F: Field>(id: &str, xs: &[F], thorough: bool, rng: &mut Rng, out: &mut Out) {
+    type BP<F> = <F as Field>::BasePrimeField;
+    let show = |r: Option<Vec<F>>| match r { Some(v) => list(&v), None => "none".into() };
+    let showp = |r: Option<Vec<BP<F>>>| match r { Some(v) => list(&v), None => "none".into() };
+    out.line(&format!("C02 tfe_bool {} 0", id), &show(ToConstraintField::<F>::to_field_elements(&false)));
+    out.line(&format!("C02 tfe_bool {} 1", id), &show(ToConstraintField::<F>::to_field_elements(&true)));
+    out.line(&format!("C02 tfe_unit {}", id), &show(ToConstraintField::<F>::to_field_elements(&())));
+    for len in [0usize, 1, 3] {
+        let v: Vec<F> = (0..len).map(|k| xs[(7 * k + len) % xs.len()]).collect();
+        out.line(&format!("C02 tfe_slice {} {}", id, list(&v)), &show(ToConstraintField::<F>::to_field_elements(&v[..])));
+    }
+    for e in prime_edges::<BP<F>>().into_iter().chain((0..2).map(|_| rand_prime::<BP<F>>(rng))) {
+        out.line(&format!("C02 tfe_prime {} {}", id, hx(&e)), &showp(ToConstraintField::<BP<F>>::to_field_elements(&e)));
+    }
+    // byte packing: chunks of (MODULUS_BIT_SIZE - 1) / 8 bytes
+    let ms = ((BP::<F>::MODULUS_BIT_SIZE - 1) / 8) as usize;
+    let mut lens = vec![0usize, 1, ms.saturating_sub(1), ms, ms + 1, 2 * ms, 2 * ms + 1, 32, 33, 3 * ms + 2];
+    if thorough { lens.extend_from_slice(&[2, 7, 8, 9, 31, 64, 100, 5 * ms]); }
+    if ms == 0 { lens = vec![0, 1, 32]; }   // moduli below 2^8: `chunks(0)` panics whatever the input
+    lens.sort(); lens.dedup();
+    for len in lens {
+        for pat in 0..(if thorough { 3 } else { 2 }) {
+            let bytes: Vec<u8> = (0..len).map(|_| if pat == 0 { 0xff } else { rng.next() as u8 }).collect();
+            let inp = format!("C02 tfe_bytes {} {}", id, hex_list_u8(&bytes));
+            let b1 = bytes.clone();
+            out.line(&inp, &guarded(move || showp(ToConstraintField::<BP<F>>::to_field_elements(&b1[..]))));
+            if pat == 0 {
+                let b2 = bytes.clone();
+                out.line(&inp, &guarded(move || showp(ToConstraintField::<BP<F>>::to_field_elements(&b2))));   // Vec<u8>
+                if len == 32 {
+                    let mut a = [0u8; 32]; a.copy_from_slice(&bytes);
+                    out.line(&inp, &guarded(move || showp(ToConstraintField::<BP<F>>::to_field_elements(&a))));   // [u8; 32]
+                }
+            }
+        }
+    }
+}
+
+/// coverage-gap ops shared by all towers: inverse_in_place, receiver variants of + − × ÷, Sum / Product,
+/// From<int>, Zeroize, Valid, ToConstraintField
+fn gap_common<F: Tw>(id: &str, xs: &[F], plan: &Plan, rng: &mut Rng, out: &mut Out) {
+    let m = xs.len();
+    let n = F::extension_degree() as usize;
+    let pick = |rng: &mut Rng| xs[rng.below(m as u64) as usize];
+    let step = (m / (if plan.thorough { 60 } else { 14 })).max(1);
+    for (i, x) in xs.iter().enumerate() {
+        if i % step != 0 && i >= 3 { continue; }
+        let a = es(x);
+        let mut y = *x;
+        let r = guarded(|| { let r = y.inverse_in_place().map(|v| *v); format!("{} {}", oes(r), es(&y)) });
+        out.line(&format!("C02 invip {} {}", id, a), &r);
+        if i % (4 * step) == 0 || i < 3 {
+            let mut z = *x; zeroize::Zeroize::zeroize(&mut z);
+            out.line(&format!("C02 zeroize {} {}", id, a), &es(&z));
+            out.line(&format!("C02 valid {} {}", id, a), if x.check().is_ok() { "ok" } else { "err" });
+            out.line(&format!("C02 tfe {} {}", id, a), &x.tfe());
+        }
+    }
+    // operator receiver variants: 0, 1, -1 and random operands; every pair: one Div shape + add, sub, mul shapes in turn
+    let mut sel: Vec<F> = vec![F::zero(), F::one(), -F::one()];
+    for _ in 0..(if plan.thorough { 6 } else { 3 }) { sel.push(pick(rng)); }
+    let mut pairs: Vec<(F, F)> = Vec::new();
+    for a in &sel { for b in &sel { pairs.push((*a, *b)); } }
+    for _ in 0..(if plan.thorough { 80 } else { 9 }) { pairs.push((pick(rng), pick(rng))); }
+    for (t, (x, y)) in pairs.iter().enumerate() {
+        let (x, y) = (*x, *y);
+        let (a, b) = (es(&x), es(&y));
+        if plan.thorough || t % 3 == 0 { out.line(&format!("C02 add {} {} {}", id, a, b), &es(&x.opvar(&y, 0, t % 9))); }
+        if plan.thorough || t % 3 == 1 { out.line(&format!("C02 sub {} {} {}", id, a, b), &es(&x.opvar(&y, 1, (t + 3) % 9))); }
+        if plan.thorough || t % 3 == 2 { out.line(&format!("C02 mul {} {} {}", id, a, b), &es(&x.opvar(&y, 2, (t + 6) % 9))); }
+        out.line(&format!("C02 div {} {} {}", id, a, b), &guarded(move || es(&x.opvar(&y, 3, (t + 4) % 9))));
+    }
+    // Sum / Product, owned and by reference
+    for len in [0usize, 1, 2, 3, if plan.thorough { 20 } else { 7 }] {
+        let v: Vec<F> = (0..len).map(|_| pick(rng)).collect();
+        let l = list(&v);
+        out.line(&format!("C02 sum {} {}", id, l), &es(&v.iter().copied().sum::<F>()));
+        out.line(&format!("C02 sum {} {}", id, l), &es(&v.iter().sum::<F>()));
+        out.line(&format!("C02 prod {} {}", id, l), &es(&v.iter().copied().product::<F>()));
+        out.line(&format!("C02 prod {} {}", id, l), &es(&v.iter().product::<F>()));
+    }
+    let _ = n;
+    from_ints::<F>(id, F::TOP_CUBIC, plan.thorough, rng, out);
+    tfe_ops::<F>(id, xs, plan.thorough, rng, out);
+}
+
+/// towers over configurations that implement `QuadExtConfig` / `CubicExtConfig` directly: the field operations
+/// (no cyclotomic ops: `CyclotomicMultSubgroup` exists for the wrapper types only) and the hook lines
+fn run_raw<F: Field>(id: &str, kind: &str, consts: &str, top_cubic: bool, hooks: &dyn Fn(&mut Out), rng: &mut Rng, thorough: bool, out: &mut Out) {
+    cfg_line::<F>(id, kind, consts, out);
+    let xs = all_elems::<F>();
+    for x in &xs {
+        let a = es(x);
+        let x = *x;
+        out.line(&format!("C02 neg {} {}", id, a), &es(&-x));
+        out.line(&format!("C02 double {} {}", id, a), &es(&x.double()));
+        out.line(&format!("C02 square {} {}", id, a), &es(&x.square()));
+        out.line(&format!("C02 inverse {} {}", id, a), &guarded(move || oes(x.inverse())));
+        let mut y = x;
+        out.line(&format!("C02 invip {} {}", id, a), &guarded(|| { let r = y.inverse_in_place().map(|v| *v); format!("{} {}", oes(r), es(&y)) }));
+        for k in [0usize, 1, 2, 3, 4] { out.line(&format!("C02 frob {} {:x} {}", id, k, a), &guarded(move || es(&x.frobenius_map(k)))); }
+    }
+    let m = xs.len();
+    for t in 0..(if thorough { 4000 } else { 400 }) {
+        let (x, y) = if t < m { (xs[t], xs[(t * 31 + 5) % m]) } else { (xs[rng.below(m as u64) as usize], xs[rng.below(m as u64) as usize]) };
+        let (a, b) = (es(&x), es(&y));
+        out.line(&format!("C02 mul {} {} {}", id, a, b), &es(&(x * y)));
+        if t % 4 == 0 {
+            out.line(&format!("C02 add {} {} {}", id, a, b), &es(&(x + y)));
+            out.line(&format!("C02 sub {} {} {}", id, a, b), &es(&(x - y)));
+            out.line(&format!("C02 div {} {} {}", id, a, b), &guarded(move || es(&(x / y))));
+        }
+    }
+    hooks(out);
+    from_ints::<F>(id, top_cubic, thorough, rng, out);
 }
 
 /// operations shared by all towers
@@ -417,6 +692,7 @@ fn common<F: Tw>(id: &str, xs: &[F], exhaustive: bool, cyc: &[F], plan: &Plan, r
             out.line(&format!("C02 cycexp {} {} {}", id, a, hex_list_u64(&e)), &guarded(move || es(&g.cyclotomic_exp(&e2))));
         }
     }
+    gap_common(id, xs, plan, rng, out);
 }
 
 /// members of the cyclotomic subgroup: `f ↦ f^((p^n-1)/Φ_n(p))` through the implementation's own
@@ -635,6 +911,37 @@ pub fn run(rng: &mut Rng, thorough: bool, out: &mut Out, only: &Option<String>) 
     if want(only, "t12_7") { run_fp12::<D12_7>("t12_7", false, "def", "def", &toy12, rng, out); }
     if want(only, "t12_13") { run_fp12::<D12_13>("t12_13", false, "def", "def", &toy12, rng, out); }
 
+    // direct `QuadExtConfig` / `CubicExtConfig` implementations: trait-default non-residue hooks
+    if want(only, "raw2_7") {
+        let hooks = |out: &mut Out| {
+            for y in 0..7u64 { for x in 0..7u64 {
+                let (yv, xv) = (FDT7::from(y), FDT7::from(x));
+                let mut a = yv; RawQ7::mul_base_field_by_nonresidue_in_place(&mut a);
+                if x == 0 { out.line(&format!("C02 hnr raw2_7 {}", es(&yv)), &es(&a)); }
+                let mut b = yv; RawQ7::mul_base_field_by_nonresidue_and_add(&mut b, &xv);
+                out.line(&format!("C02 hnradd raw2_7 {} {}", es(&yv), es(&xv)), &es(&b));
+                let mut c = yv; RawQ7::mul_base_field_by_nonresidue_plus_one_and_add(&mut c, &xv);
+                out.line(&format!("C02 hnrp1 raw2_7 {} {}", es(&yv), es(&xv)), &es(&c));
+                let mut d = yv; RawQ7::sub_and_mul_base_field_by_nonresidue(&mut d, &xv);
+                out.line(&format!("C02 hsub raw2_7 {} {}", es(&yv), es(&xv)), &es(&d));
+            } }
+        };
+        let consts = format!("def {} {}", hx(&RawQ7::NONRESIDUE), list(RawQ7::FROBENIUS_COEFF_C1));
+        run_raw::<QuadExtField<RawQ7>>("raw2_7", "fp2", &consts, false, &hooks, rng, t, out);
+    }
+    if want(only, "raw3_7") {
+        let hooks = |out: &mut Out| {
+            for y in 0..7u64 {
+                let yv = FDT7::from(y);
+                let mut a = yv; RawC7::mul_base_field_by_nonresidue_in_place(&mut a);
+                out.line(&format!("C02 hnr raw3_7 {}", es(&yv)), &es(&a));
+                out.line(&format!("C02 hnr raw3_7 {}", es(&yv)), &es(&RawC7::mul_base_field_by_nonresidue(yv)));
+            }
+        };
+        let consts = format!("{} {} {}", hx(&RawC7::NONRESIDUE), list(RawC7::FROBENIUS_COEFF_C1), list(RawC7::FROBENIUS_COEFF_C2));
+        run_raw::<CubicExtField<RawC7>>("raw3_7", "fp3", &consts, true, &hooks, rng, t, out);
+    }
+
     // the guard of the Granger–Scott squaring on arbitrary limb slices
     if only.is_none() {
         let mut ls: Vec<Vec<u64>> = vec![vec![], vec![0], vec![1], vec![5], vec![6], vec![7], vec![36, 41], vec![39, 41], vec![1, u64::MAX], vec![u64::MAX; 3], vec![u64::MAX - 4, u64::MAX - 2, 5, 0]];
@@ -668,6 +975,7 @@ pub fn run(rng: &mut Rng, thorough: bool, out: &mut Out, only: &Option<String>) 
 }
 
 fn main() {
+    if let Some(arg) = std::env::args().nth(1) { if arg.starts_with("child-bool:") { child_main(&arg); return; } }
     let a = arkharness::args();
     let mut rng = Rng::new(a.seed);
     let mut out = Out::new();
